@@ -14,7 +14,7 @@ X_LIKE = ['xcentroid', 'xcentroid_win', 'xcentroid_quad', 'bbox_xmin', 'bbox_xma
 Y_LIKE = [n.replace('x', 'y', 1) if n.startswith('x') else n.replace('_x', '_y') for n in X_LIKE]
 XY_PAIRS = ['centroid', 'centroid_win', 'centroid_quad']                  # (n, 2) arrays of (x, y)
 YX_PAIRS = ['maxval_index', 'minval_index']                               # (n, 2) arrays of (y, x)
-INVARIANT = ['area', 'background_mean', 'background_sum', 'covar_sigx2', 'covar_sigxy', 'covar_sigy2', 'covariance', 'covariance_eigvals',
+INVARIANT = ['area', 'background_centroid', 'background_mean', 'background_sum', 'covar_sigx2', 'covar_sigxy', 'covar_sigy2', 'covariance', 'covariance_eigvals',
              'cutout_centroid', 'cutout_centroid_win', 'cutout_centroid_quad', 'cutout_maxval_index', 'cutout_minval_index',
              'cxx', 'cxy', 'cyy', 'eccentricity', 'ellipticity', 'elongation', 'equivalent_radius', 'fwhm', 'gini', 'inertia_tensor',
              'kron_flux', 'kron_fluxerr', 'kron_radius', 'label', 'local_background', 'max_value', 'min_value', 'moments', 'moments_central',
@@ -30,7 +30,7 @@ T_FLIP_PAIR = ['centroid', 'centroid_win', 'centroid_quad', 'maxval_index', 'min
                'cutout_centroid_quad', 'cutout_maxval_index', 'cutout_minval_index']
 T_MATRIX_T = ['moments', 'moments_central']                                # matrix transposed
 T_MATRIX_P = ['covariance', 'inertia_tensor']                              # rows and columns exchanged
-T_SAME = ['area', 'background_mean', 'background_sum', 'covar_sigxy', 'covariance_eigvals', 'cxy', 'eccentricity', 'ellipticity', 'elongation',
+T_SAME = ['area', 'background_centroid', 'background_mean', 'background_sum', 'covar_sigxy', 'covariance_eigvals', 'cxy', 'eccentricity', 'ellipticity', 'elongation',
           'equivalent_radius', 'fwhm', 'gini', 'kron_flux', 'kron_fluxerr', 'kron_radius', 'label', 'local_background', 'max_value', 'min_value',
           'perimeter', 'segment_area', 'segment_flux', 'segment_fluxerr', 'semimajor_sigma', 'semiminor_sigma',
           'biweight_location', 'biweight_midvariance', 'center_aper_area', 'mad_std', 'max', 'mean', 'median', 'min', 'mode', 'std', 'sum',
@@ -254,6 +254,11 @@ def catalog_sweep(rep, r, n):
     for k in range(n):
         ny, nx = r.randint(56, 72), r.randint(56, 72)
         img, pos = scene(r, ny, nx, r.randint(2, 4), 18, noise=0.5)
+        # faint, small sources near the detection limit: the fall-back branches of the fitted centroids run for these
+        yy_, xx_ = np.mgrid[0:ny, 0:nx]
+        for _ in range(r.randint(6, 10)):
+            fx, fy = r.uniform(18, nx - 19), r.uniform(18, ny - 19)
+            img = img + r.uniform(4.5, 8.0) * np.exp(-((xx_ - fx) ** 2 + (yy_ - fy) ** 2) / (2 * r.uniform(0.8, 1.2) ** 2))
         err = np.sqrt(np.abs(img)) + 0.5
         dy, dx, NY, NX = offsets(r, ny, nx)
         conn = r.choice([4, 8])
@@ -285,9 +290,10 @@ def catalog_sweep(rep, r, n):
             kw = dict(localbkg_width=r.choice([0, 0, 4]), kron_params=r.choice([(2.5, 1.4, 0.0), (2.0, 1.0, 0.0)]))
             rp['catalog_kwargs'] = {k_: list(v) if isinstance(v, tuple) else v for k_, v in kw.items()}
             try:
-                c0 = SourceCatalog(img, deb0, error=err, **kw)
-                cT = SourceCatalog(embed(img, NY, NX, dy, dx), debT, error=embed(err, NY, NX, dy, dx), **kw)
-                cX = SourceCatalog(img.T.copy(), SegmentationImage(deb0.data.T.copy()), error=err.T.copy(), **kw)
+                bkg = 0.02 * np.arange(nx)[None, :] + 0.05 * np.arange(ny)[:, None] + 0.5      # a background map with different x and y gradients
+                c0 = SourceCatalog(img, deb0, error=err, background=bkg, **kw)
+                cT = SourceCatalog(embed(img, NY, NX, dy, dx), debT, error=embed(err, NY, NX, dy, dx), background=embed(bkg, NY, NX, dy, dx), **kw)
+                cX = SourceCatalog(img.T.copy(), SegmentationImage(deb0.data.T.copy()), error=err.T.copy(), background=bkg.T.copy(), **kw)
                 # footprints (Kron and local-background apertures) inside the original frame
                 keep = np.ones(c0.nlabels, bool)
                 aslist = lambda z: list(z) if isinstance(z, (list, tuple, np.ndarray)) else [z]
@@ -572,7 +578,7 @@ def run(rep, tier):
     r = rng('C03')
     moments_correspondence(rep, r, 40 * scale)
     aperture_sweep(rep, r, 40 * scale)
-    catalog_sweep(rep, r, 6 * scale)
+    catalog_sweep(rep, r, 12 * scale)
     detection_sweep(rep, r, 6 * scale)
     centroid_sweep(rep, r, 10 * scale)
     profile_sweep(rep, r, 8 * scale)
